@@ -168,6 +168,7 @@ func c20Owners(tier string) []c20Owner {
 		mk("A20", bytes.Repeat([]byte{0x11}, 20)),
 		mk("B20", seq(20, 0xA0)),
 		mk("C32", seq(32, 0x01)),
+		mk("L64", seq(64, 0x40)), // 64 bytes: the port id "icacontroller-"+owner is longer than 128 characters
 	}
 	// bech32 also admits the all-upper-case spelling: same account (same
 	// signer) but a different owner STRING, hence a different port.
